@@ -61,6 +61,7 @@ pub struct WModel {
     transitions: AtomicU64,
     synths: AtomicU64,
     rejected: AtomicU64,
+    checked_last: AtomicU64,
 }
 
 fn apply_real(e: &mut Engine, ns: usize, a: &WAct) -> Result<(), String> {
@@ -169,7 +170,12 @@ impl Model for WModel {
         Some(st)
     }
     fn properties(&self) -> Vec<Property<Self>> {
-        vec![Property::always("weights validated and effective", |_m: &WModel, s: &WState| s.bad.is_none())]
+        vec![Property::always("weights validated and effective", |m: &WModel, s: &WState| {
+            if s.depth == m.depth {
+                m.checked_last.fetch_add(1, Ordering::Relaxed);
+            }
+            s.bad.is_none()
+        })]
     }
 }
 
@@ -310,9 +316,10 @@ pub fn run(tier: Tier) -> i32 {
         let mut counts = Vec::new();
         for threads in [nthreads(), 3] {
             let d = if nv == 3 { depth.min(2) } else { depth };
-            let model = WModel { base: base.clone(), ns, nv, acts: acts.clone(), depth: d, utt: utt.clone(), transitions: Default::default(), synths: Default::default(), rejected: Default::default() };
-            let checker = model.checker().threads(threads).target_max_depth(d as usize + 1).spawn_bfs().join();
+            let model = WModel { base: base.clone(), ns, nv, acts: acts.clone(), depth: d, utt: utt.clone(), transitions: Default::default(), synths: Default::default(), rejected: Default::default(), checked_last: Default::default() };
+            let checker = model.checker().threads(threads).target_max_depth(d as usize + 2).spawn_bfs().join();
             counts.push(checker.unique_state_count());
+            rep.guard(checker.model().checked_last.load(Ordering::Relaxed) > 0, "invariant never evaluated on states at the depth bound");
             if threads == nthreads() {
                 let tr = checker.model().transitions.load(Ordering::Relaxed);
                 rep.states.fetch_add(checker.unique_state_count() as u64, Ordering::Relaxed);
